@@ -310,7 +310,7 @@ check("C08",
       "stream, select() sampling from the global stream) are refuted by TLC. Every catalogued stochastic call (4 sampling utilities, "
       "7 mating protocols, the dense meiosis / DH / cross helpers, phenotyping, 8 configuration classes, two hill climbers, prng "
       "wrappers, jitter, EMBV matrix, 5 selection protocols, 13 pymoo-based optimisers, and 15 deterministic computations that may consume no "
-      "source at all) is executed with the heap's free lists filled with copy-specific garbage (uninitialised memory is a hidden entropy source) and is executed in two fresh interpreters with different hash seeds and histories under four rng "
+      "source at all) is executed in two fresh interpreters with different hash seeds and histories under four rng "
       "regimes plus random programs with mid-program re-seeding, the heap's free lists being filled with copy-specific garbage before every call "
       "(uninitialised memory is a hidden entropy source); TLC validates the recorded touched-source sets and digests against "
       "the intended design.",
